@@ -411,6 +411,39 @@ def _polyfile_case(args):
                         f"filter {low} removed and loaded again from the "
                         f"file: identifier {again.unique_id}",
                         {"variant": "remove-then-load"}))
+                # one file written in several sessions: save() appends, the
+                # identifiers start at 0 again in every session, so sections
+                # can share an identifier; each section is loaded with its
+                # own content (by position in the file)
+                if len(sub) >= 2:
+                    p.unlink()
+                    exp_sections = []
+                    for i in sub:
+                        PolygonFilter.clear_all_filters()
+                        kw = dict(pool[i])
+                        kw.pop("unique_id")
+                        pfx = PolygonFilter(**kw)       # identifier 0
+                        pfx.save(p)
+                        exp_sections.append((list(pfx.axes), pfx.name,
+                                             pfx.inverted,
+                                             np.array(pfx.points)))
+                    PolygonFilter.clear_all_filters()
+                    loaded = PolygonFilter.import_all(p)
+                    okk = len(loaded) == len(exp_sections) and len(
+                        {lf.unique_id for lf in loaded}) == len(loaded)
+                    for lf, (axs, nm, inv, pts) in zip(loaded, exp_sections):
+                        okk = okk and list(lf.axes) == axs and \
+                            lf.name == nm and lf.inverted == inv and \
+                            np.allclose(lf.points, pts, rtol=1e-14, atol=0)
+                    if not okk:
+                        out.append(violation(
+                            PF + ".import_all", "roundtrip-differs", case,
+                            f"file written in {len(sub)} sessions (every "
+                            f"section has identifier 0): loaded "
+                            f"{[(lf.unique_id, lf.name) for lf in loaded]}, "
+                            f"expected names "
+                            f"{[e[1] for e in exp_sections]}",
+                            {"variant": "sessions"}))
             except BaseException as e:
                 out.append(violation(
                     PF + ".import_all", "exception", case,
